@@ -173,6 +173,8 @@ def run_series(m0, series, cfg, root=None, names=None, sched=None, trace=False, 
     ws.make_ws(root, files, patches, lines, patches_dir=pd)
     before = ws.snapshot(root, skip=(pd.split('/')[0], 'series'))
     tr = os.path.join(wdir(), 'trace') if (trace or cfg.get('threads', 1) > 1) else None
+    if cfg.get('policy'):   # the other serial order of the workers (highest id first)
+        preload_env = dict(preload_env or {}, RQ_VERIF_POLICY=cfg['policy'])
     o = ws.run_rq(root, cfg_args(cfg), threads=cfg.get('threads', 1), sched=sched, trace=tr, preload_env=preload_env, use_d=not cfg.get('no_d'), threads_env=bool(cfg.get('threads_env')))
     after = ws.snapshot(root, skip=(pd.split('/')[0], 'series'))
     return o, before, after
